@@ -15,11 +15,14 @@ C13_SETS = [
 WL = [dict(), dict(effects=0.3, effect_api='p'), dict(fail=0.3)]
 
 
+from .checks import THOROUGH_GEN
+
+
 def gen_names(tier, seed):
-    """generated machine definitions: two fixed ones in the quick tier (cached by setup), a seed-dependent dozen more in thorough"""
+    """generated machine definitions: two fixed ones in the quick tier (cached by setup), a fixed set of 24 more in thorough"""
     out = ['gen:101', 'gen:103']
     if tier == 'thorough':
-        out += ['gen:%d' % (1000 + (seed % 1000) * 20 + k) for k in range(12)]
+        out += THOROUGH_GEN
     return out
 
 
